@@ -534,7 +534,7 @@ def fam_struct(R, idx):
     """Struct ports in and out, field reads and writes, nested structs, packed arrays in structs."""
     ctx = Ctx(R)
     w = R.choice([8, 32, 33, 7])
-    kind = idx % 5
+    kind = idx % 6
     g = ["@bitstruct\nclass In1:\n  a: Bits%d\n  b: Bits4\n" % w,
          "@bitstruct\nclass Pt:\n  x: Bits%d\n  y: Bits%d\n" % (w, w),
          "@bitstruct\nclass Mix:\n  hd: Bits3\n  pts: [ Pt ] * 2\n  arr: [ Bits%d ] * 3\n  tl: In1\n" % w]
@@ -549,6 +549,14 @@ def fam_struct(R, idx):
     elif kind == 2:
         decl += ["s.o = OutPort( Pt )", "s.w = Wire( Pt )", "s.o3 = OutPort( Bits%d )" % (2 * w)]
         body = ["s.w @= s.m.pts[ s.sel ]", "s.o.x @= s.w.y", "s.o.y @= s.w.x & s.p.x", "s.o3 @= s.w"]
+    elif kind == 5:
+        # whole-struct traffic only: connection, assignment, register, mux
+        decl += ["s.o = OutPort( Mix )", "s.o6 = OutPort( Mix )", "s.m2 = InPort( Mix )", "s.r = OutPort( Mix )",
+                 "s.o7 = [ OutPort( Pt ) for _ in range(2) ]", "s.o //= s.m"]
+        body = ["if s.sel:\n  s.o6 @= s.m\nelse:\n  s.o6 @= s.m2", "s.o7[0] @= s.p\ns.o7[1] @= s.m.pts[1]"]
+        return ("struct_k%d_w%d" % (kind, w),
+                _emit(ctx, [_block("up", body),
+                            _block("upff", ["s.r <<= s.m2"], ff=True)], decl))
     elif kind == 3:
         decl += ["s.o = [ OutPort( Pt ) for _ in range(2) ]", "s.o4 = OutPort( Bits%d )" % w]
         body = ["for i in range(2):\n  s.o[i] @= s.m.pts[1-i]", "t = s.m.tl\ns.o4 @= t.a + s.m.arr[0]"]
